@@ -495,6 +495,113 @@ impl Ctx<'_> {
 				}
 				res(r, show)
 			}
+			"inc3" => {
+				let a = parse_box(t[2]);
+				let (x, y, z) = (n(3), n(4), n(5) as u8);
+				let r = catch(|| { let mut b = a.clone(); TileCoord3::new(x, y, z).and_then(|c| b.include_coord3(&c)).map(|_| b) });
+				match &r {
+					Ok(Ok(b)) => {
+						let want = r_hull(den(&a), Some((x as u64, y as u64, x as u64, y as u64)));
+						if z != a.level { self.fail(op, line, "a coordinate of another level was included".into(), json!({})); }
+						else if den(b) != want { self.fail(op, line, "result is not the bounding box of the old set and the coordinate".into(), json!({})); }
+						else { self.pass(); }
+					}
+					Ok(Err(_)) => { if z == a.level && z <= 31 { self.fail(op, line, "coordinate of the box's own level rejected".into(), json!({})); } else { self.pass(); } }
+					Err(_) => self.fail(op, line, "panic".into(), json!({"kind": "panic"})),
+				}
+				res(r, show)
+			}
+			"ipyr" => {
+				let (a, p) = (parse_box(t[2]), parse_pyr(t[3]));
+				let r = catch(|| { let mut b = a.clone(); b.intersect_pyramid(&p).map(|_| b) });
+				match &r {
+					Ok(Ok(b)) => {
+						if den(b) != r_isect(den(&a), den(&p.level_bbox[a.level as usize])) { self.fail(op, line, "intersect_pyramid is not the set intersection with the pyramid's level".into(), json!({})); } else { self.pass(); }
+					}
+					_ => self.fail(op, line, "intersect_pyramid failed on a box of a level the pyramid has".into(), json!({"kind": "fail"})),
+				}
+				res(r, show)
+			}
+			"cbi3" => {
+				let a = parse_box(t[2]);
+				let i = n(3);
+				let r = catch(|| a.get_coord3_by_index(i));
+				match &r {
+					Ok(Ok(c)) => {
+						let back = a.get_tile_index3(c).ok();
+						let nth = if r_count(den(&a)) <= 100_000 { a.iter_coords().nth(i as usize) } else { Some(*c) };
+						if c.z != a.level || !a.contains3(c) { self.fail(op, line, "coordinate outside the box".into(), json!({})); }
+						else if back != Some(i as usize) { self.fail(op, line, format!("get_tile_index3(get_coord3_by_index({i})) = {back:?}"), json!({})); }
+						else if nth != Some(*c) { self.fail(op, line, "not the i-th enumerated coordinate".into(), json!({})); }
+						else { self.pass(); }
+					}
+					Ok(Err(_)) => { if (i as u64) < r_count(den(&a)) { self.fail(op, line, "index inside the box rejected".into(), json!({})); } else { self.pass(); } }
+					Err(_) => { if den(&a).map_or(false, |d| d.2 <= a.max as u64 && d.3 <= a.max as u64) { self.fail(op, line, "panic".into(), json!({"kind": "panic"})); } else { self.pass(); } }
+				}
+				res(r, |c| format!("{},{},{}", c.x, c.y, c.z))
+			}
+			"valid" => {
+				let c = TileCoord3 { x: n(2), y: n(3), z: n(4) as u8 };
+				self.pass();
+				(c.is_valid() as u8).to_string()
+			}
+			"sidx" => {
+				let c = TileCoord3 { x: n(2), y: n(3), z: n(4) as u8 };
+				let r = catch(|| c.get_sort_index());
+				if let Ok(i) = &r {
+					// slot law: all lower levels come first, then row-major inside the level
+					let z = c.z as u32;
+					if z <= 31 && (c.x as u64) < (1u64 << z) && (c.y as u64) < (1u64 << z) {
+						let below: u128 = (0..z).map(|l| 1u128 << (2 * l)).sum();
+						let want = below + ((c.y as u128) << z) + c.x as u128;
+						if *i as u128 != want { self.fail(op, line, format!("sort index {i}, position in level-major row-major order {want}"), json!({})); } else { self.pass(); }
+					} else { self.pass(); }
+				} else if c.z <= 31 { self.fail(op, line, "panic on a coordinate TileCoord3::new accepts".into(), json!({"kind": "panic"})); } else { self.pass(); }
+				resp(r, |i| i.to_string())
+			}
+			"p_good" => {
+				let p = parse_pyr(t[2]);
+				let o = |v: Option<u8>| v.map_or("-".to_string(), |v| v.to_string());
+				let good = p.get_good_zoom();
+				let want = (0..32usize).rev().find(|z| r_count(den(&p.level_bbox[*z])) > 10).map(|z| z as u8);
+				let cz = catch(|| p.get_geo_center().map(|c| c.2));
+				let nonempty: Vec<u8> = (0..32u8).filter(|i| den(&p.level_bbox[*i as usize]).is_some()).collect();
+				let in_range = nonempty.iter().all(|z| { let b = &p.level_bbox[*z as usize]; b.x_max <= b.max && b.y_max <= b.max });
+				let mut czs = "panic".to_string();
+				let mut bad: Option<String> = None;
+				if good != want { bad = Some(format!("get_good_zoom {good:?}, highest level with more than ten tiles {want:?}")); }
+				match &cz {
+					Ok(c) => {
+						czs = o(*c);
+						match (c, nonempty.first(), nonempty.last()) {
+							(None, None, _) => {}
+							(Some(c), Some(lo), Some(hi)) if c >= lo && c <= hi && *c == (*lo + 2).min(*hi) => {}
+							_ => bad = Some(format!("centre zoom {c:?} for covered levels {:?}..{:?}", nonempty.first(), nonempty.last())),
+						}
+					}
+					Err(_) => { if in_range { bad = Some("get_geo_center panicked".into()); } }
+				}
+				match bad { Some(m) => self.fail(op, line, m, json!({})), None => self.pass() }
+				format!("good={} czoom={}", o(good), czs)
+			}
+			"p_fromgeo" => {
+				let (zmin, zmax) = (n(2) as u8, n(3) as u8);
+				let f = |i: usize| f64::from_bits(t[i].parse::<u64>().unwrap());
+				let g = GeoBBox(f(4), f(5), f(6), f(7));
+				let valid = g.0 >= -180.0 && g.1 >= -90.0 && g.2 <= 180.0 && g.3 <= 90.0 && g.0 <= g.2 && g.1 <= g.3;
+				let r = catch(|| TileBBoxPyramid::from_geo_bbox(zmin, zmax, &g));
+				match &r {
+					Ok(p) => {
+						let ok = (0..32u8).all(|z| {
+							let d = den(&p.level_bbox[z as usize]);
+							if z < zmin || z > zmax { d.is_none() } else { TileBBox::from_geo(z, &g).map_or(false, |b| den(&b) == d && d.is_some()) }
+						});
+						if !ok { self.fail(op, line, "from_geo_bbox is not from_geo per level inside the zoom range and empty outside".into(), json!({})); } else { self.pass(); }
+					}
+					Err(_) => { if valid && zmax <= 31 { self.fail(op, line, "panic on a valid geo box".into(), json!({"kind": "panic"})); } else { self.pass(); } }
+				}
+				resp(r, show_pyr)
+			}
 			_ => panic!("unknown op {op}"),
 		}
 	}
@@ -547,7 +654,7 @@ fn bits(f: f64) -> u64 { f.to_bits() }
 pub fn run(args: &Args) {
 	quiet_panics();
 	let mut out = Out::new(&args.out);
-	out.rule = "boxes: every box (valid + all empty encodings) at zoom 0..2 × all pairs × {isect, incl, ovl} and every unary op (thorough: zoom 3 unary + 10^5 sampled pairs); seeded boxes up to zoom 31 with border coordinates 0,1,255,256,2^z-1; grid sizes 1,2,3,32,256,2^z,2^31; pyramids with mixed empty encodings; geo boxes: world, poles, zero-area, on/near tile borders (±k·1e-6 tile), random; round trips of sampled boxes at every zoom. non-trivial = (pair) both non-empty and neither contains the other, or an empty encoding involved; (unary) box non-empty and not a single tile; distinct by case text".into();
+	out.rule = "boxes: every box (valid + all empty encodings) at zoom 0..2 × all pairs × {isect, incl, ovl} and every unary op (thorough: zoom 3 unary + 10^5 sampled pairs); seeded boxes up to zoom 31 with border coordinates 0,1,255,256,2^z-1; grid sizes 1,2,3,32,256,2^z,2^31; pyramids with mixed empty encodings; geo boxes: world, poles, zero-area, on/near tile borders (±k·1e-6 tile), random; round trips of sampled boxes at every zoom; include_coord3 / intersect_pyramid / get_coord3_by_index / is_valid / get_sort_index (corners of every level, z up to 255) / get_good_zoom with levels of 9..12 tiles / centre zoom / from_geo_bbox with zoom ranges incl. reversed and > 31. non-trivial = (pair) both non-empty and neither contains the other, or an empty encoding involved; (unary) box non-empty and not a single tile; distinct by case text".into();
 	let mut cx = Ctx { out: &mut out };
 	if let Some(p) = &args.replay {
 		for line in std::fs::read_to_string(p).unwrap().lines() {
@@ -698,6 +805,52 @@ pub fn run(args: &Args) {
 		}
 	}
 	cx.case("C15 p_empty".into(), true);
+	// --- further functions: include_coord3, intersect_pyramid, get_coord3_by_index, is_valid, get_sort_index, get_good_zoom, centre zoom, from_geo_bbox
+	for _ in 0..args.n(1500, 20000) {
+		let level = if rng.chance(1, 3) { rng.range(0, 4) } else { rng.range(0, 31) } as u8;
+		let m = ((1u64 << level) - 1) as u32;
+		let a = rand_box(&mut rng, level);
+		let s = show(&a);
+		let pt = |rng: &mut Rng| -> u32 { match rng.below(5) { 0 => 0, 1 => m, 2 => m / 2, _ => rng.below(m as u64 + 1) as u32 } };
+		let (x, y) = (pt(&mut rng), pt(&mut rng));
+		let z = if rng.chance(1, 6) { rng.below(33) as u8 } else { level };
+		cx.case(format!("C15 inc3 {s} {x} {y} {z}"), unary_nt(&a));
+		if let Some(d) = den(&a) {
+			let cnt = r_count(Some(d));
+			for i in [0u64, cnt / 2, cnt.saturating_sub(1), cnt, rng.below(cnt.max(1))] {
+				if i < (1 << 32) { cx.case(format!("C15 cbi3 {s} {i}"), true); }
+			}
+		} else { cx.case(format!("C15 cbi3 {s} {}", rng.below(3)), true); }
+		let zc = if rng.chance(1, 8) { *rng.pick(&[30u8, 31, 32, 33, 63, 64, 255]) } else { level };
+		let (vx, vy) = match rng.below(6) { 0 => (m.wrapping_add(1), y), 1 => (x, m.wrapping_add(1)), 2 => (u32::MAX, u32::MAX), _ => (x, y) };
+		cx.case(format!("C15 valid {vx} {vy} {zc}"), true);
+		cx.case(format!("C15 sidx {vx} {vy} {zc}"), true);
+	}
+	for z in 0..=31u8 { let m = ((1u64 << z) - 1) as u32; for (x, y) in [(0, 0), (m, 0), (0, m), (m, m)] { cx.case(format!("C15 sidx {x} {y} {z}"), true); cx.case(format!("C15 valid {x} {y} {z}"), true); } }
+	for _ in 0..args.n(300, 3000) {
+		let mut p = if rng.chance(1, 2) { TileBBoxPyramid::new_full(rng.below(14) as u8) } else { TileBBoxPyramid::new_empty() };
+		if rng.chance(1, 2) { p.set_zoom_min(rng.below(6) as u8); }
+		for _ in 0..rng.below(5) {
+			let l = rng.below(32) as u8;
+			// boxes around the ten-tile threshold: 9, 10, 11, 12 tiles
+			let m = ((1u64 << l) - 1) as u32;
+			p.level_bbox[l as usize] = match rng.below(4) {
+				0 => rand_box(&mut rng, l),
+				1 if m >= 10 => raw(l, 0, 0, rng.range(8, 11) as u32, 0),
+				2 if m >= 5 => raw(l, 1, 1, rng.range(2, 4) as u32, rng.range(2, 5) as u32),
+				_ => raw(l, 0, 0, 0, 0),
+			};
+		}
+		let sp = show_pyr(&p);
+		cx.case(format!("C15 p_good {sp}"), true);
+		let l = rng.below(32) as u8;
+		cx.case(format!("C15 ipyr {} {sp}", show(&rand_box(&mut rng, l))), true);
+		let (a, b) = (rng.below(360_000_000) as f64 / 1e6 - 180.0, rng.below(360_000_000) as f64 / 1e6 - 180.0);
+		let (c, d) = (rng.below(170_000_000) as f64 / 1e6 - 85.0, rng.below(170_000_000) as f64 / 1e6 - 85.0);
+		let (z0, z1) = (rng.below(33), rng.below(33));
+		cx.case(format!("C15 p_fromgeo {} {} {} {} {} {}", z0.min(z1), if rng.chance(1, 10) { z0.max(z1).max(32) } else { z0.max(z1).min(31) }, bits(a.min(b)), bits(c.min(d)), bits(a.max(b)), bits(c.max(d))), true);
+		if rng.chance(1, 10) { cx.case(format!("C15 p_fromgeo {} {} {} {} {} {}", z0.max(z1).min(31), z0.min(z1), bits(a.min(b)), bits(c.min(d)), bits(a.max(b)), bits(c.max(d))), true); }
+	}
 	for z in [0, 5, 31, 40] { cx.case(format!("C15 p_full {z}"), true); }
 
 	// --- geographic boxes
